@@ -29,6 +29,7 @@ unsigned int irc_ntop(char *output, unsigned int out_size, const irc_inaddr *add
 unsigned int irc_pton(irc_inaddr *addr, unsigned int *bits, const char *input, int allow_trailing);
 unsigned int irc_check_mask(const irc_inaddr *check, const irc_inaddr *mask, unsigned int bits);
 void ctype_init(void);
+extern const unsigned int verif_irc_ntop_max;   /* IRC_NTOP_MAX from modules/iauth.h */
 }
 
 static std::string g_fail_case, g_fail_msg;
@@ -63,12 +64,13 @@ static bool check_ntop(const uint16_t g_in[8]) {
     std::string id = "ntop " + hexgroups(g_in);
     irc_inaddr *a = (irc_inaddr *)malloc(sizeof(irc_inaddr));   // exact-size heap blocks for ASan
     to_addr(g_in, a);
-    char *buf = (char *)malloc(40);
-    memset(buf, 'Z', 40);
-    unsigned n = irc_ntop(buf, 40, a);
+    const unsigned NMAX = verif_irc_ntop_max;          // the documented buffer size
+    char *buf = (char *)malloc(NMAX);
+    memset(buf, 'Z', NMAX);
+    unsigned n = irc_ntop(buf, NMAX, a);
     bool ok = true;
     uint16_t want[8]; memcpy(want, g_in, sizeof want); canon(want);
-    if (n > 39 || memchr(buf, 0, 40) == NULL || strlen(buf) != n) ok = fail(id, "irc_ntop returned " + std::to_string(n) + " but wrote a string of another length (or >39)");
+    if (n >= NMAX || memchr(buf, 0, NMAX) == NULL || strlen(buf) != n) ok = fail(id, "irc_ntop returned " + std::to_string(n) + " for a buffer of IRC_NTOP_MAX=" + std::to_string(NMAX) + " bytes but the text does not fit / has another length");
     else if (buf[0] == ':') ok = fail(id, std::string("text begins with ':' : ") + buf);
     else {
         // standard library parser
@@ -91,8 +93,8 @@ static bool check_ntop(const uint16_t g_in[8]) {
             else if (memcmp(g2, want, sizeof g2)) ok = fail(id, std::string("irc_pton reads '") + buf + "' as " + hexgroups(g2) + ", expected " + hexgroups(want));
             else {
                 // idempotence of print o parse
-                char *buf2 = (char *)malloc(40);
-                unsigned n2 = irc_ntop(buf2, 40, b);
+                char *buf2 = (char *)malloc(NMAX);
+                unsigned n2 = irc_ntop(buf2, NMAX, b);
                 if (n2 != n || strcmp(buf2, buf)) ok = fail(id, std::string("print(parse(print)) = '") + buf2 + "' differs from '" + buf + "'");
                 free(buf2);
             }
